@@ -4,9 +4,11 @@ i = s.index('### 12.5 Which check catches which seeded change')
 table = open('/tmp/seedtable.md').read()
 new = '''### 12.5 Which check catches which seeded change
 
-118 changes were written by sub-agents that saw only the text of one property and their own scratch worktree: two per property in a first round (A, B), two more
-in a second round (C, D) and two more in a third (E, F; 19 properties, C12's worktree being busy with a 40-minute demonstration at the time); from the second round on the agents were additionally told one line
-about each earlier change for their property so as not to repeat it. Each change was confirmed here
+160 changes were written by sub-agents that saw only the text of one property and their own scratch worktree: two per property in each of four rounds
+(A, B; C, D; E, F; G, H). From the second round on the agents were additionally told one line about each earlier change for their property so as not to repeat it; in the fourth round the two
+changes had prescribed styles: G a concurrency or resource-lifetime slip (a lock moved, a goroutine added, pooling or caching, a timer, a finalizer, a deferred clean-up in the wrong place),
+H a slip in glue or wiring (the main program's flags and the way it builds its components, a constructor's defaults, a small helper, a library option, an error translated on its way up).
+Each change was confirmed here
 (`tools/seedconfirm.sh`: builds, whole existing suite passes, the agent's demonstration fails with the change and passes without) and kept under
 `seeded/<id>/` (`patch.diff`, demonstration, `NOTES.agent.md`, `confirm.log`, `check.out`, `meta.json`). The checks were run against each with
 `VERIF_REPO=<scratch worktree with the patch>` (same build path as `/repo`, which stays clean). With the machinery as committed, the quick tier of the property
@@ -66,6 +68,24 @@ What each missed (or nearly missed) change led to:
 | C18-E (TABDOC lines collected per source instead of from the payload) | missed | **`Converter.From` seam**: every sequence of <= 3 sources (with / without filter, with / without final newline, directory), listing appended by `From` itself, rows compared with the TABDOC lines of the payload it was appended to |
 | C19-E (undecorated status lines take the shell-output path) | missed | status lines in four dresses (coloured / plain, with / without timestamp, with / without trailing newline), chosen by position |
 | C20-E (only the tty's descriptor number is kept: a finalizer closes the file, the terminal stays raw) | missed | every exit and every single start-up fault also with `GOGC=1` (the collector and finalizers running all the time) |
+| C01-H (IDs un-escaped a second time by a helper in the handlers) | missed | ID `%256B` (decodes to the three characters `%6B`) in the HTTP seam |
+| C02-H (`go func() { s.ich <- l }()` in `Shell.Do`: a paste is reordered) | missed | lines pasted into the real Shell's terminal in one write (1..100 lines): once each, in order |
+| C03-G (forwarding loop goes on after a cancellation dropped a chunk) | missed | needs an operator's side that is *waiting* when the cancellation lands between two steps of one goroutine: `await` event (the operator found waiting) in the stalled profiles, and a free-running complement (`c03stress.go`) that found it |
+| C03-H (handlers wrap the body; bytes returned together with a non-EOF error are discarded) | missed | **handler seam** (`c03handler.go`): requests with scripted bodies through the real mux and handlers into the real broker, every sequence of <= 3 read results incl. data + reset / unexpected EOF / closed pipe; and over TLS a connection cut in the middle of a chunk, which turned up D11 |
+| C04-H (`-one-shell` and `-ipv6-one-liners` swapped in the call of `hsrv.New`) / C06-H (one broker per `-listen-address`) | missed | **wiring seams** (`realbin2.go`): the real binary under every boolean flag, alone and together: three shells in a row (C04); two `-listen-address` flags with two `/io` clients on every address that accepts (C06) |
+| C08-G (`sstls.Listen` removes the cache when listening fails) / C08-H (`hsrv.New` retries without a cache when loading fails) | missed | histories of starts through `sstls.Listen` (fine / address in use / bad address) on one cache path; the HTTPS server started the program's way on damaged caches (`c08seams.go`) |
+| C09-G (single-file mode forgets to close the file) / C09-H (`MaxHeaderBytes: 4 << 10`) | missed | a worker process with ~40 spare descriptors and the collector off: 300 single-file requests; 13 KB targets (a 431 below net/http's own limit is a violation) |
+| C10-G (error-log line kept past `Write`'s return) / C10-H (Host header in a format position on the punycode error path) | missed | 48 clients failing the TLS handshake at the same moment, each named exactly once; Host values `xn--<text>.example.com` |
+| C11-G (output records written by a goroutine that stops at cancellation) / C11-H (`-log` file behind a `bufio.Writer`) | missed | free-running complement with a slow log sink (`c11stress.go`); a second real-binary session ended by SIGKILL after the handlers have returned |
+| C12-E (graceful shutdown bounded to 5 s: the live shell is cut off) / C12-F (`/io` handler closes the listener itself) | missed | two sessions left alone for 8 s (thorough 35 s) after the listener closed; pre-attempt "refused /io client beside a held input" |
+| C13-H (pin moved to `DialTLSContext`, which proxied connections skip) | missed | the pinned calls again with a default transport that uses a CONNECT proxy and trusts every server's certificate (`c13proxy.go`) |
+| C14-H (`defer res.Body.Close()` in `simpleshell.Go`) | missed | end-to-end seam: `simpleshell.Go` + `CmdShell` against a slow HTTPS server (HTTP/2 and HTTP/1.1) that keeps sending input (`c14go.go`) |
+| C15-H (`bufio.Scanner`'s 64 KiB token limit, error unchecked) | missed | an accepted input must be valid by the reference validator; lines of 4 KiB..1 MiB in the middle of valid text |
+| C16-G (converted files cached by path and "newer" mtime) / C16-H (default filter table shared, `SetFilter` lazily creating it) | missed | **converter histories** (`c16conv.go`): one long-lived Converter, the script replaced by an older / same-age / newer file, other Converters' tables changed, real directory and MapFS |
+| C18-G (listing cached by source name, size, mtime) / C18-H (`DocPrefix` field empty in a zero Converter) | missed | From seam also with a zero-value Converter and with one kept Converter that has just seen the same sources before a file is rewritten in place |
+| C19-G (one long-lived key goroutine fed through an unbuffered channel) | missed | lock-interleaving scenarios with two Ctrl+O keys typed together (`KKP`, `PKK`, `MKKP`; 1 536 schedules instead of 136) |
+| C19-H (timer created lazily) | exit 2 ("shim not linked") | the linkage check no longer assumes a timer armed by the constructor |
+| C20-G (`close(s.ich)` while an insertion may still send) | missed | exits "Tab then Ctrl+D" and "queue full, Tab, Ctrl+D" |
 
 **C12-D** moves the registration of the server's event listener into the watcher goroutine, after HTTP is being served; it needs the broker to be busy delivering an earlier event to
 another slow listener at start-up. The in-process scenario `c12BusyBroker` reproduces that set-up; its result for this change is recorded in `seeded/C12-D/check.out` (the agent's own
